@@ -53,7 +53,9 @@ CHECKS = {
         text="Generated MDP tables, time limits, behaviour policies (Q-table through lerax's epsilon-greedy; deterministic action table "
         "with out-of-bounds entries) and (buffer_size, learning_starts, num_envs, num_steps) combos below/above per-env capacity "
         "are run through the real reset() warm-up and iteration() of DQN and SAC; each newly stored slot of each per-env buffer "
-        "and the insertion counts are re-derived by the interpreter.",
+        "and the insertion counts are re-derived by the interpreter. A second part runs DQN(MLPQPolicy) on CartPole and "
+        "SAC(MLPSACPolicy) on Pendulum under generated time limits and re-derives every stored row with the environment's own "
+        "functional API (observation/transition/reward/terminal/truncate) from the state the row started in.",
         design="DESIGN.md §4 C05",
         note="Trusted: vlib/mdp.py interpreter; learning rate 0 keeps the behaviour policy fixed. 12 mutants of off_policy.py all caught.",
     ),
